@@ -1,5 +1,223 @@
+/-
+  C07 — no unresolved `$required` and no stray `$directive` string reaches the output.
+  Model: `validateChars`, `validateString`, `validate`, `emit` (Bkl/Output.lean).
+  Theorems about `Val` come with `_list` / `_fields` companions (mutual structural proofs).
+-/
 import Bkl
+import BklProofs.Lemmas.Output
+import BklProofs.C17
 namespace Bkl
-/-- placeholder until the property theorems land -/
-theorem C07_placeholder : validate (.int 1) = .ok () := by simp [validate]; rfl
+
+/-! ## Specification -/
+
+/-- a string the output stage must reject: exactly "$required", or `$` followed by a
+    lower-case letter (a directive that was not consumed) -/
+def badString (s : String) : Bool :=
+  decide (s.toList = "$required".toList) ||
+  match s.toList with
+  | '$' :: c :: _ => isLowerModel c
+  | _ => false
+
+mutual
+/-- no map key and no string leaf is a `badString` -/
+def clean : Val → Bool
+  | .str s => !badString s
+  | .list xs => cleanList xs
+  | .map kvs => cleanFields kvs
+  | _ => true
+def cleanList : List Val → Bool
+  | [] => true
+  | x :: xs => clean x && cleanList xs
+def cleanFields : Fields → Bool
+  | [] => true
+  | (k, v) :: rest => !badString k && clean v && cleanFields rest
+end
+
+/-! ## `validate` accepts exactly the clean trees -/
+
+theorem validateString_iff (s : String) : validateString s = .ok () ↔ badString s = false := by
+  unfold validateString validateChars badString
+  by_cases h : s.toList = "$required".toList
+  · simp [h, throw, throwThe, MonadExceptOf.throw]
+  · simp only [h, if_false, decide_false, Bool.false_or]
+    split
+    · rename_i c rest heq
+      by_cases hc : isLowerModel c <;> simp [heq, hc, throw, throwThe, MonadExceptOf.throw, pure, Except.pure]
+    · simp [pure, Except.pure]
+
+mutual
+theorem validate_iff : ∀ (v : Val), validate v = .ok () ↔ clean v = true
+  | .map kvs => by simp only [validate, clean]; exact validate_iff_fields kvs
+  | .list xs => by simp only [validate, clean]; exact validate_iff_list xs
+  | .str s => by simp [validate, clean, validateString_iff]
+  | .null | .bool _ | .int _ | .flt _ => by simp [validate, clean, pure, Except.pure]
+theorem validate_iff_list : ∀ (xs : List Val), validateList xs = .ok () ↔ cleanList xs = true
+  | [] => by simp [validateList, cleanList, pure, Except.pure]
+  | x :: xs => by
+    simp only [validateList, cleanList, Bool.and_eq_true, o_seq_ok, validate_iff x,
+      validate_iff_list xs]
+theorem validate_iff_fields : ∀ (kvs : Fields), validateFields kvs = .ok () ↔ cleanFields kvs = true
+  | [] => by simp [validateFields, cleanFields, pure, Except.pure]
+  | (k, v) :: rest => by
+    simp only [validateFields, cleanFields, Bool.and_eq_true, o_seq_ok, validate_iff v,
+      validate_iff_fields rest, validateString_iff, Bool.not_eq_true', and_assoc]
+end
+
+example : clean (.map [("a", .str "$$x"), ("$Upper", .list [.str "$", .int 1])]) = true := by decide
+example : clean (.map [("a", .str "$x")]) = false := by decide
+
+/-! ## The only errors of `validate` -/
+
+theorem validateString_error (s : String) (e : Err) (h : validateString s = .error e) :
+    e = .requiredField ∨ e = .invalidDirective := by
+  unfold validateString validateChars at h
+  split at h
+  · cases h; left; rfl
+  · split at h
+    · split at h
+      · cases h; right; rfl
+      · cases h
+    · cases h
+
+mutual
+theorem validate_error : ∀ (v : Val) (e : Err), validate v = .error e →
+    e = .requiredField ∨ e = .invalidDirective
+  | .map kvs, e, h => validate_error_fields kvs e (by simpa only [validate] using h)
+  | .list xs, e, h => validate_error_list xs e (by simpa only [validate] using h)
+  | .str s, e, h => validateString_error s e (by simpa only [validate] using h)
+  | .null, _, h | .bool _, _, h | .int _, _, h | .flt _, _, h => by
+    simp [validate, pure, Except.pure] at h
+theorem validate_error_list : ∀ (xs : List Val) (e : Err), validateList xs = .error e →
+    e = .requiredField ∨ e = .invalidDirective
+  | [], e, h => by simp [validateList, pure, Except.pure] at h
+  | x :: xs, e, h => by
+    simp only [validateList] at h
+    rcases o_seq_error h with h | h
+    · exact validate_error x e h
+    · exact validate_error_list xs e h
+theorem validate_error_fields : ∀ (kvs : Fields) (e : Err), validateFields kvs = .error e →
+    e = .requiredField ∨ e = .invalidDirective
+  | [], e, h => by simp [validateFields, pure, Except.pure] at h
+  | (k, v) :: rest, e, h => by
+    simp only [validateFields] at h
+    rcases o_seq_error h with h | h
+    · exact validateString_error k e h
+    · rcases o_seq_error h with h | h
+      · exact validate_error v e h
+      · exact validate_error_fields rest e h
+end
+
+example : validate (.map [("a", .str "$required")]) = .error .requiredField := by decide
+example : validate (.list [.map [("$merge", .int 1)]]) = .error .invalidDirective := by decide
+
+/-! ## Everything `emit` returns went through `validate` -/
+
+/-- every emitted document is the finalisation of a validated tree -/
+theorem C07_outputs_validated (ds outs : List Val) (h : emit ds = .ok outs) :
+    ∀ o ∈ outs, ∃ v2, o = finalize v2 ∧ validate v2 = .ok () := by
+  intro o ho
+  rw [emit_eq] at h
+  cases hs : emitSelect ds with
+  | error e => rw [hs] at h; cases h
+  | ok vs =>
+    rw [hs] at h
+    obtain ⟨_, _, v2, _, hv, rfl⟩ := emitFinish_mem vs outs h o ho
+    exact ⟨v2, rfl, hv⟩
+
+/-- … and hence of a `clean` tree -/
+theorem C07_outputs_clean (ds outs : List Val) (h : emit ds = .ok outs) :
+    ∀ o ∈ outs, ∃ v2, o = finalize v2 ∧ clean v2 = true := by
+  intro o ho
+  obtain ⟨v2, h1, h2⟩ := C07_outputs_validated ds outs h o ho
+  exact ⟨v2, h1, (validate_iff v2).1 h2⟩
+
+example : emit [.map [("a", .int 1), ("b", .map [("$output", .bool false)])]] =
+    .ok [.map [("a", .int 1)]] := by decide
+
+/-! ## An unresolved `$required` is rejected -/
+
+mutual
+theorem C07_required_not_clean : ∀ (v : Val), 0 < countReq v → clean v = false
+  | .map kvs, h => by
+    simp only [countReq] at h; simp only [clean]; exact C07_required_not_clean_fields kvs h
+  | .list xs, h => by
+    simp only [countReq] at h; simp only [clean]; exact C07_required_not_clean_list xs h
+  | .str s, h => by
+    simp only [countReq] at h
+    split at h
+    · rename_i hs; subst hs; decide
+    · omega
+  | .null, h | .bool _, h | .int _, h | .flt _, h => by simp [countReq] at h
+theorem C07_required_not_clean_list : ∀ (xs : List Val), 0 < countReqList xs → cleanList xs = false
+  | [], h => by simp [countReqList] at h
+  | x :: xs, h => by
+    simp only [countReqList] at h
+    simp only [cleanList, Bool.and_eq_false_iff]
+    by_cases hx : 0 < countReq x
+    · left; exact C07_required_not_clean x hx
+    · right; exact C07_required_not_clean_list xs (by omega)
+theorem C07_required_not_clean_fields : ∀ (kvs : Fields), 0 < countReqFields kvs →
+    cleanFields kvs = false
+  | [], h => by simp [countReqFields] at h
+  | (k, v) :: rest, h => by
+    simp only [countReqFields] at h
+    simp only [cleanFields, Bool.and_eq_false_iff]
+    by_cases hx : 0 < countReq v
+    · left; right; exact C07_required_not_clean v hx
+    · right; exact C07_required_not_clean_fields rest (by omega)
+end
+
+/-- a tree that still contains a `$required` marker never validates -/
+theorem C07_required_rejected (v2 : Val) (h : 0 < countReq v2) : validate v2 ≠ .ok () := by
+  intro hv
+  have := C07_required_not_clean v2 h
+  rw [(validate_iff v2).1 hv] at this
+  cases this
+
+/-- more precisely it fails, with one of the two `validate` errors -/
+theorem C07_required_rejected_error (v2 : Val) (h : 0 < countReq v2) :
+    validate v2 = .error .requiredField ∨ validate v2 = .error .invalidDirective := by
+  cases hv : validate v2 with
+  | ok u => exact absurd hv (C07_required_rejected v2 h)
+  | error e => rcases validate_error v2 e hv with rfl | rfl <;> simp
+
+example : 0 < countReq (.map [("a", .list [.int 1, .str "$required"])]) := by decide
+
+/-- so `emit` fails as soon as a filtered document still carries a marker -/
+theorem C07_emit_required_fails (v v2 : Val) (h1 : findOutputs v = .ok (v, []))
+    (h2 : filterOutput v = .ok (some v2)) (h3 : 0 < countReq v2) :
+    ∃ e, emit [v] = .error e := by
+  rw [emit_eq]
+  simp only [emitSelect, h1, bind, Except.bind, pure, Except.pure, List.isEmpty_nil, if_true,
+    List.append_nil, emitFinish, h2]
+  rcases C07_required_rejected_error v2 h3 with h | h <;> rw [h] <;> exact ⟨_, rfl⟩
+
+example : findOutputs (.map [("a", .str "$required")]) = .ok (.map [("a", .str "$required")], []) ∧
+    filterOutput (.map [("a", .str "$required")]) = .ok (some (.map [("a", .str "$required")])) := by
+  decide
+
+/-! ## Directive literals are rejected -/
+
+theorem C07_directive_strings_rejected :
+    ∀ s ∈ ["$delete", "$replace", "$match", "$value", "$invert", "$required", "$output", "$merge",
+           "$encode", "$decode", "$repeat", "$parent", "$env:X", "$merge:a", "$replace:a"],
+      validateString s ≠ .ok () := by
+  decide
+
+theorem C07_dollar_lower_rejected (c : Char) (rest : List Char) (h : isLowerModel c = true) :
+    validateChars ('$' :: c :: rest) ≠ .ok () := by
+  unfold validateChars
+  split
+  · intro h'; cases h'
+  · simp [h, throw, throwThe, MonadExceptOf.throw]
+
+/-- lifted to strings -/
+theorem C07_dollar_lower_rejected_string (c : Char) (rest : List Char)
+    (h : isLowerModel c = true) : validateString (String.ofList ('$' :: c :: rest)) ≠ .ok () := by
+  unfold validateString
+  rw [String.toList_ofList]
+  exact C07_dollar_lower_rejected c rest h
+
+example : isLowerModel 'm' = true := by decide
+
 end Bkl
